@@ -1,8 +1,11 @@
 #![allow(dead_code)]
+mod c05tls;
+mod c08tls;
 mod c10net;
 mod c13;
 mod c14;
 mod c15;
+mod c15tls;
 mod c16;
 mod net;
 mod serial;
@@ -28,9 +31,9 @@ fn main() {
             let rt = tokio::runtime::Builder::new_multi_thread().worker_threads(8).enable_all().build().unwrap();
             let mut ev = vcommon::report::Evidence::new();
             let total = args.tier.pick(24_000usize, 800_000);
-            let rounds = args.tier.pick(2u64, 8);
+            let rounds = args.tier.pick(4u64, 16);
             for r in 0..rounds {
-                let problems = rt.block_on(c10net::stress(args.seed.wrapping_mul(2).wrapping_add(r), total / rounds as usize, &mut ev));
+                let problems = rt.block_on(c10net::stress(args.seed.wrapping_mul(2).wrapping_add(r), total / rounds as usize, [16usize, 2, 1, 4][(r % 4) as usize], &mut ev));
                 serial::merge(&mut ev, problems, "c10net");
                 ev.eval();
             }
@@ -41,6 +44,53 @@ fn main() {
                     println!("violation: sig={} :: {}", v.sig, v.what);
                 }
                 println!("c10net: {:?} classes {:?}", ev.counters, ev.classes);
+            }
+            0
+        }
+        "c05tls" => {
+            // MBAP over TLS records; evidence is merged by the sim engine's C05 check
+            let rt = tokio::runtime::Builder::new_multi_thread().worker_threads(8).enable_all().build().unwrap();
+            let ev = rt.block_on(c05tls::run(args.seed, args.tier.pick(12, 96), args.tier.pick(6, 60)));
+            if let Some(out) = args.extra.get("out") {
+                let _ = std::fs::write(out, serde_json::to_string(&ev.to_json()).unwrap());
+            } else {
+                for v in ev.violations.iter().take(10) {
+                    println!("violation: sig={} :: {}", v.sig, v.what);
+                }
+                println!("c05tls: {:?} classes {:?} inconclusive {:?}", ev.counters, ev.classes.len(), ev.inconclusive);
+            }
+            0
+        }
+        "c08tls" => {
+            // role-based authorization over real TLS; evidence is merged by the sim engine's C08 check
+            let rt = tokio::runtime::Builder::new_multi_thread().worker_threads(8).enable_all().build().unwrap();
+            let ev = rt.block_on(c08tls::run());
+            if let Some(out) = args.extra.get("out") {
+                let _ = std::fs::write(out, serde_json::to_string(&ev.to_json()).unwrap());
+            } else {
+                for v in ev.violations.iter().take(10) {
+                    println!("violation: sig={} :: {}", v.sig, v.what);
+                }
+                println!("c08tls: {:?} classes {:?} inconclusive {:?}", ev.counters, ev.classes.len(), ev.inconclusive);
+            }
+            0
+        }
+        "c10serial" => {
+            // serial client: what a request submitted while the port is down completes with (C10 evidence)
+            let rt = tokio::runtime::Builder::new_multi_thread().worker_threads(4).enable_all().build().unwrap();
+            let mut ev = vcommon::report::Evidence::new();
+            for k in 0..args.tier.pick(2usize, 12) {
+                let mut e = vcommon::report::Evidence::new();
+                let problems = rt.block_on(serial::serial_client_reopen(k, &mut e));
+                ev.merge(e);
+                ev.eval();
+                let keep: Vec<_> = problems.into_iter().filter(|(s, _)| s.contains("request_during_wait") || s.contains("did_not_terminate")).collect();
+                serial::merge(&mut ev, keep, "c10serial");
+            }
+            if let Some(out) = args.extra.get("out") {
+                let _ = std::fs::write(out, serde_json::to_string(&ev.to_json()).unwrap());
+            } else {
+                println!("c10serial: {:?} violations {}", ev.counters, ev.violations.len());
             }
             0
         }
